@@ -29,6 +29,8 @@ class ServicesManager:
         # so we need to introduce a lock to ensure the access to the dictionary is concurrent safe.
         self._access_dict_lock = asyncio.Lock()
         self._service_dict = {}
+        # sid -> future that is resolved as soon as the registered connection of that service has been cleaned up
+        self._cleaned_dict = {}
 
     async def create_service(self, sid: str, websocket: WebSocketServerProtocol):
         short_sid = shorten_sid(sid)  # shorten sid for display and log
@@ -37,19 +39,31 @@ class ServicesManager:
         # a new service created with the same sid just to send init or control messages will not affect the database.
         service = Service(sid, websocket)
 
-        if sid in self._service_dict:
-            prev_server = self._service_dict[sid]
-            reason = f"Service {short_sid} is already running, we need to wait for the previous connection to close..."
-            logger.warning(reason)
-            # In the previous practice, if the previous connection was not closed,
-            # the later connection was closed, which resulted in a anomalous behavior of the client.
-            # So we need to send a control message to the client to tell it
-            # to wait for the previous connection to close.
-            service.send_message(MsgType.CONTROL, reason.encode('utf8'))
-            await prev_server.wait_closed()  # wait for the previous socket to close
+        waited = False
+        while True:
+            async with self._access_dict_lock:
+                if sid not in self._service_dict:
+                    if waited:
+                        # the connections served in the meantime may have changed what is stored for this service
+                        service.reload_service_state()
+                    self._service_dict[sid] = service
+                    self._cleaned_dict[sid] = asyncio.get_running_loop().create_future()
+                    break
+                prev_cleaned = self._cleaned_dict[sid]
+            if not waited:
+                reason = f"Service {short_sid} is already running, " \
+                         f"we need to wait for the previous connection to close..."
+                logger.warning(reason)
+                # In the previous practice, if the previous connection was not closed,
+                # the later connection was closed, which resulted in a anomalous behavior of the client.
+                # So we need to send a control message to the client to tell it
+                # to wait for the previous connection to close.
+                service.send_message(MsgType.CONTROL, reason.encode('utf8'))
+                waited = True
+            # wait for the previous connection to be closed and cleaned up, then check again:
+            # another waiting connection may have been served first
+            await prev_cleaned
 
-        async with self._access_dict_lock:
-            self._service_dict[sid] = service
         clean_task = asyncio.create_task(self.clean_service_when_close_connection(sid, websocket))
         await service.start()  # run forever! do not use asyncio.create_task
         await clean_task
@@ -60,4 +74,5 @@ class ServicesManager:
             await asyncio.sleep(1)
             self._service_dict[sid].close_service()
             del self._service_dict[sid]
+            self._cleaned_dict.pop(sid).set_result(None)
         logger.info(f"Clean service {shorten_sid(sid)} successfully.")
